@@ -4,6 +4,8 @@ import os
 import sys
 
 sys.setrecursionlimit(10000)
+import warnings
+warnings.filterwarnings("ignore")
 
 
 def main():
